@@ -179,3 +179,129 @@ Proof.
   pose proof (INV_exec cfg ops true init_state None (INV_init cfg true) (FL_init true)) as I.
   apply limit_le_max; [exact (inv_nodup _ _ _ I)|exact Hq|exact Hok|exact (inv_creq _ _ _ I q Hq)].
 Qed.
+
+(* ---------- where the ghost flag comes from ---------- *)
+(* One step sets the flag of a quota only for one of the three stated reasons:
+   its own max is lowered, an already-bound pod is replayed at or below it, or a child quota is
+   created under it while parent checking is off.  (So "flag clear" in [used_le_max_flag] means
+   exactly: none of these ever happened to the quota.) *)
+Definition taint_reason (cfg : config) (st : state) (o : op) (i : Z) : Prop :=
+  match o with
+  | OQuotaUpdate id mx _ _ _ =>
+      id = i /\ exists q, In q (quotas st) /\ q_id q = i /\ lowers q mx = true
+  | OPodAddBound _ qn _ _ _ => In i (map q_id (path st qn))
+  | OQuotaAdd _ parent _ _ _ _ _ _ => parent = i /\ chk_parent cfg = false
+  | _ => False
+  end.
+
+Definition was_tainted (st : state) (i : Z) : Prop :=
+  exists q, In q (quotas st) /\ q_id q = i /\ q_taint q = true.
+
+Lemma taint_map_same h qs q' :
+  (forall q, q_id (h q) = q_id q /\ q_taint (h q) = q_taint q) ->
+  In q' (map h qs) -> q_taint q' = true ->
+  exists q, In q qs /\ q_id q = q_id q' /\ q_taint q = true.
+Proof.
+  intros Hh Hq Ht. apply in_map_iff in Hq. destruct Hq as (q & <- & Hin).
+  destruct (Hh q) as [Hi Htt]. exists q. rewrite Htt in Ht. auto.
+Qed.
+
+Lemma taint_refresh ids qs ps q' :
+  In q' (refresh ids qs ps) -> q_taint q' = true ->
+  exists q, In q qs /\ q_id q = q_id q' /\ q_taint q = true.
+Proof.
+  apply taint_map_same. intro q. destruct (mem_id _ _); split; reflexivity.
+Qed.
+Lemma taint_upd_used ids f g qs q' :
+  In q' (upd_used ids f g qs) -> q_taint q' = true ->
+  exists q, In q qs /\ q_id q = q_id q' /\ q_taint q = true.
+Proof.
+  apply taint_map_same. intro q. destruct (mem_id _ _); split; reflexivity.
+Qed.
+Lemma taint_touch st p qs ps q' :
+  In q' (touch_request st p qs ps) -> q_taint q' = true ->
+  exists q, In q qs /\ q_id q = q_id q' /\ q_taint q = true.
+Proof.
+  unfold touch_request. destruct (vec_zerob _); [|apply taint_refresh].
+  intros H Ht. exists q'. auto.
+Qed.
+Lemma taint_taint_ids ids qs q' :
+  In q' (taint_ids ids qs) -> q_taint q' = true ->
+  (exists q, In q qs /\ q_id q = q_id q' /\ q_taint q = true) \/ In (q_id q') ids.
+Proof.
+  intros Hq Ht. unfold taint_ids in Hq. apply in_map_iff in Hq. destruct Hq as (q & <- & Hin).
+  destruct (mem_id (q_id q) ids) eqn:E.
+  - right. apply mem_id_spec. exact E.
+  - left. exists q. auto.
+Qed.
+
+Theorem taint_origin cfg st o q' :
+  In q' (quotas (fst (step cfg st o))) -> q_taint q' = true ->
+  was_tainted st (q_id q') \/ taint_reason cfg st o (q_id q').
+Proof.
+  unfold was_tainted.
+  destruct o as [id parent lend decl mx mindecl mn w|id mx mindecl mn w|id qn np req keys|id|id|id|id|id|t
+                 |id qn np req keys|]; unfold step; cbv zeta; cbn [taint_reason].
+  - (* quota add *)
+    destruct (id <=? 0); cbn [orb fst]; [intros H Ht; left; exists q'; auto|].
+    destruct (find_quota id (quotas st)); cbn [orb fst]; [intros H Ht; left; exists q'; auto|].
+    match goal with |- context [negb ?b] => destruct b end; cbn [negb fst quotas];
+      [|intros H Ht; left; exists q'; auto].
+    intros H Ht. destruct (taint_refresh _ _ _ _ H Ht) as (q1 & H1 & E1 & T1). rewrite <- E1.
+    apply in_app_or in H1. destruct H1 as [H1|[<-|[]]]; [|discriminate T1].
+    destruct (chk_parent cfg) eqn:Ec; [left; exists q1; auto|].
+    destruct (taint_taint_ids _ _ _ H1 T1) as [(q0 & H0 & E0 & T0)|Hin].
+    + left. exists q0. rewrite <- E0. auto.
+    + right. destruct Hin as [<-|[]]. auto.
+  - (* quota update *)
+    destruct (find_quota id (quotas st)) as [q0|] eqn:Ef; cbn [fst quotas];
+      [|intros H Ht; left; exists q'; auto].
+    intros H Ht.
+    match type of H with
+    | In _ (if ?b then refresh ?ids ?l ?ps else _) =>
+        assert (H1 : exists q1, In q1 l /\ q_id q1 = q_id q' /\ q_taint q1 = true);
+        [destruct b; [apply (taint_refresh _ _ _ _ H Ht)|exists q'; auto]|]
+    end.
+    destruct H1 as (q1 & H1 & E1 & T1). rewrite <- E1.
+    apply in_map_iff in H1. destruct H1 as (q & Hq & Hin).
+    destruct (q_id q =? id) eqn:E; [|left; exists q; subst q1; auto].
+    subst q1. change (q_taint q || lowers q mx = true) in T1. change (q_id (set_taint _ _)) with (q_id q).
+    apply Z.eqb_eq in E. apply orb_true_iff in T1. destruct T1 as [T1|T1].
+    + left. exists q. auto.
+    + right. split; [symmetry; exact E|]. exists q. auto.
+  - (* pod add *)
+    destruct (find_pod id (pods st)); cbn [fst]; [intros H Ht; left; exists q'; auto|].
+    destruct (find_quota qn (quotas st)); cbn [fst quotas]; [|intros H Ht; left; exists q'; auto].
+    intros H Ht. left. apply (taint_touch _ _ _ _ _ H Ht).
+  - (* attempt *)
+    destruct (find_pod id (pods st)) as [p|]; cbn [fst]; [|intros H Ht; left; exists q'; auto].
+    match goal with |- context [if ?b then charge st p else st] => destruct b end;
+      [|intros H Ht; left; exists q'; auto].
+    unfold charge. cbn [quotas]. intros H Ht. left. apply (taint_upd_used _ _ _ _ _ H Ht).
+  - (* check *)
+    destruct (find_pod id (pods st)); cbn [fst]; intros H Ht; left; exists q'; auto.
+  - (* reserve *)
+    destruct (find_pod id (pods st)) as [p|]; cbn [fst]; [|intros H Ht; left; exists q'; auto].
+    destruct (p_assigned p); [intros H Ht; left; exists q'; auto|].
+    unfold charge. cbn [quotas]. intros H Ht. left. apply (taint_upd_used _ _ _ _ _ H Ht).
+  - (* unreserve *)
+    destruct (find_pod id (pods st)) as [p|]; cbn [fst]; [|intros H Ht; left; exists q'; auto].
+    destruct (p_assigned p); cbn [fst quotas]; [|intros H Ht; left; exists q'; auto].
+    unfold refund. intros H Ht. left. apply (taint_upd_used _ _ _ _ _ H Ht).
+  - (* pod delete *)
+    destruct (find_pod id (pods st)) as [p|]; cbn [fst quotas]; [|intros H Ht; left; exists q'; auto].
+    intros H Ht. destruct (taint_touch _ _ _ _ _ H Ht) as (q1 & H1 & E1 & T1). rewrite <- E1.
+    destruct (p_assigned p); [|left; exists q1; auto].
+    unfold refund in H1. left. apply (taint_upd_used _ _ _ _ _ H1 T1).
+  - intros H Ht; left; exists q'; auto.
+  - (* bound pod *)
+    destruct (find_pod id (pods st)); cbn [fst]; [intros H Ht; left; exists q'; auto|].
+    destruct (find_quota qn (quotas st)); cbn [fst]; [|intros H Ht; left; exists q'; auto].
+    unfold charge. cbn [quotas]. intros H Ht.
+    destruct (taint_upd_used _ _ _ _ _ H Ht) as (q1 & H1 & E1 & T1). rewrite <- E1.
+    destruct (taint_touch _ _ _ _ _ H1 T1) as (q2 & H2 & E2 & T2). rewrite <- E2.
+    destruct (taint_taint_ids _ _ _ H2 T2) as [(q0 & H0 & E0 & T0)|Hin].
+    + left. exists q0. auto.
+    + right. exact Hin.
+  - intros H Ht; left; exists q'; auto.
+Qed.
